@@ -70,6 +70,7 @@ class Effects:
         self.max_depth = max_depth
         self.res = Result()
         self.depth = 0
+        self._yielded = [Val()]
         self._ctx = []          # control context: tokens of the conditional regions enclosing the current program point
         self._seq = 0
 
@@ -342,6 +343,11 @@ class Effects:
             return v
         if isinstance(e, ast.Call):
             return self.call(e, env)
+        if isinstance(e, (ast.Yield, ast.YieldFrom)):
+            # generator function: what it yields is what a caller iterating over the call receives
+            v = self.expr(e.value, env) if e.value is not None else Val()
+            self._yielded[-1] = self._yielded[-1] | v
+            return Val({FRESH}, {'const'})
         if isinstance(e, ast.Lambda):
             return Val({FRESH}, {'const'})
         if isinstance(e, ast.Starred):
@@ -510,9 +516,14 @@ class Effects:
         if fs not in self.res.funcs:
             self.res.funcs.append(fs)
         n_ctx = len(self._ctx)
+        self._yielded.append(Val())
         try:
             ret = self.block(fs.node.body, sub_env)
+            y_ = self._yielded[-1]
+            if y_.alias or y_.deps:
+                ret = ret | Val({FRESH} | (y_.alias - {FRESH}), y_.deps)
         finally:
+            self._yielded.pop()
             self._cls_stack.pop(); self._func_stack.pop(); self.depth -= 1
             had_early_return = any(t[0] == 'after-return' for t in self._ctx[n_ctx:])
             del self._ctx[n_ctx:]
